@@ -204,7 +204,7 @@ func checkC01(env *Env) []Violation {
 	sumC := map[string]int64{}
 	sumH := map[string]int64{}
 	for _, d := range dels {
-		if env.isInternal(d.Name) {
+		if env.isInternalID(d.Name, d.Tags) {
 			continue
 		}
 		switch d.Kind {
